@@ -209,6 +209,16 @@ def mergePairs : List (String × J) → List (String × J) → List (String × J
     | some old => mergePairs (J.setKey k (deepMerge old v) acc) rest
     | none => mergePairs (acc ++ [(k, v)]) rest
 
+/-- apply an object projection `f` to one value: `null` stays `null` -/
+def projElem (f : J → List (String × J)) : J → J
+  | .null => .null
+  | y => .obj (mergePairs [] (f y))
+
+/-- apply an object projection to the value of a composite field: element-wise through a list -/
+def projWith (f : J → List (String × J)) : J → J
+  | .arr xs => .arr (xs.map (projElem f))
+  | y => projElem f y
+
 mutual
   def sel1 (doc : J) (vars : List (String × J)) (v : J) : ISel → List (String × J)
     | .inline sub => selL doc vars v sub
@@ -216,14 +226,7 @@ mutual
       let x := fieldValue doc vars v n args
       [(a, match sub with
            | [] => x
-           | _ =>
-             match x with
-             | .arr xs => .arr (xs.map (fun y =>
-                 match y with
-                 | .null => .null
-                 | _ => .obj (mergePairs [] (selL doc vars y sub))))
-             | .null => .null
-             | y => .obj (mergePairs [] (selL doc vars y sub)))]
+           | _ => projWith (fun y => selL doc vars y sub) x)]
   def selL (doc : J) (vars : List (String × J)) (v : J) : List ISel → List (String × J)
     | [] => []
     | s :: rest => sel1 doc vars v s ++ selL doc vars v rest
